@@ -74,7 +74,7 @@ def project(c, out):
     a = c.info.get('area', 'base')
     if a == 'core': return C08core.project_core(c, out)
     if a == 'print': return ' '.join(t for t in out.split(' ') if t != 'SPECDIFF')
-    return G.project_fields(out, ['live', 'reqs'])
+    return G.project_fields(out, ['live'])
 
 def verdict(c, out, ctx):
     a = c.info.get('area', 'base')
